@@ -106,6 +106,11 @@ var CuratedFens = []string{
 	"r1bqkbnr/pppp1ppp/2n5/4p3/4P3/5N2/PPPP1PPP/RNBQKB1R w KQkq - 2 3",
 	"4k2r/8/8/8/8/8/8/4K2R w Kk - 99 60",
 	"4k3/8/8/8/8/8/4P3/4K3 w - - 100 80",
+	// the two known 218-move positions (the maximum for legal chess) and a colour-reversed one: the move list is a
+	// fixed-capacity buffer ([255]Move), so the highest mobility legal chess allows must fit
+	"R6R/3Q4/1Q4Q1/4Q3/2Q4Q/Q4Q2/pp1Q4/kBNN1KB1 w - - 0 1",
+	"3Q4/1Q4Q1/4Q3/2Q4R/Q4Q2/3Q4/1Q4Rp/1K1BBNNk w - - 0 1",
+	"Kbnn1kb1/PP1q4/q4q2/2q4q/4q3/1q4q1/3q4/r6r b - - 0 1",
 }
 
 // Bias of a playout: weights for choosing among legal moves.
